@@ -46,7 +46,7 @@ def chi_case(draw):
     zf = draw(st.sampled_from([0.2, 0.0, 0.4]))
     return dict(n=n, m=max(1, m), seed=draw(st.integers(0, 10 ** 6)), zf=zf, bscale=draw(st.sampled_from([1.0, 1e3, 1e-3])),
                 order=list(draw(st.permutations(['covar', 'acoeff', 'var', 'chi2', 'yfit', 'dof']))),
-                basis=draw(st.sampled_from(['rawpoly', 'poly', 'random'])))
+                basis=draw(st.sampled_from(['rawpoly', 'poly', 'random'])), near=draw(st.sampled_from([None, None, None, 1e-7, 1e-5])))
 
 
 def chi_body(case):
@@ -62,6 +62,10 @@ def chi_body(case):
     else:
         A = pseudo(seed, (n, m))
     b = case['bscale'] * pseudo(seed + 1, (n,))
+    near = case.get('near') if case['basis'] != 'rawpoly' else None
+    if near:
+        # a very good fit: data that are a combination of the columns to within 1e-7 / 1e-5 (high signal-to-noise, or a large baseline)
+        b = case['bscale'] * (A.dot(1.0 + pseudo(seed + 5, (m,))) + near * pseudo(seed + 1, (n,)))
     w = 0.5 + np.abs(pseudo(seed + 2, (n,)))
     z = np.abs(pseudo(seed + 3, (n,)))
     zero = np.argsort(z)[:int(case['zf'] * n)]
@@ -91,6 +95,12 @@ def chi_body(case):
         check(bool(np.all(np.abs(yf - A.dot(ref)) <= tol * max(np.abs(b).max(), 1e-300))), 'chi2:yfit-wrong')
         c2 = float(out.chi2)
         want = float((w * (b - A.dot(ref)) ** 2).sum())
+        if near and cond < 100:
+            # the residuals of a correct solver are accurate to ~eps cond^2 |b|; chi-square, their weighted square sum, accordingly
+            rerr = (1e-13 * cond ** 2 + 1e-15) * np.abs(b).max()
+            ctol = 1e-8 * want + 4 * math.sqrt(want * w.sum()) * rerr + 2 * w.sum() * rerr ** 2
+            check(c2 >= 0 and abs(c2 - want) <= ctol, 'chi2:chi2-wrong-for-a-very-good-fit', lambda: dict(got=c2, want=want, allowed=ctol, cond=float(cond)))
+            note_label('near-exact-fit')
         check(abs(c2 - want) <= 1e-8 * max(want, 1e-12 * (w * b * b).sum()), 'chi2:chi2-wrong', lambda: dict(got=c2, want=want))
         check(int(out.dof) == int((w > 0).sum()) - m, 'chi2:dof-wrong', lambda: dict(got=int(out.dof), want=int((w > 0).sum()) - m, zero_weights=len(zero)))
         cv = np.asarray(out.covar, dtype='f8')
@@ -233,7 +243,10 @@ def hmf_steps_body(case):
 def hmf_solve_case(draw):
     base = draw(hmf_case())
     base['positive'] = True
-    return dict(base, nonnegative=draw(st.sampled_from([False, True])), hseed=draw(st.sampled_from([0, 7, 12345, 1, 0])), n_iter=draw(st.sampled_from([3, 5])),
+    nn = draw(st.sampled_from([False, True]))
+    if nn and draw(st.booleans()):
+        base['epsilon'] = draw(st.sampled_from([10.0, 100.0, 1e4]))        # a strong smoothness penalty (non-negative mode only)
+    return dict(base, nonnegative=nn, hseed=draw(st.sampled_from([0, 7, 12345, 1, 0])), n_iter=draw(st.sampled_from([3, 5])),
                 state1=draw(st.integers(1, 10 ** 6)), state2=draw(st.integers(1, 10 ** 6)))
 
 
